@@ -448,6 +448,59 @@ func auRandScen(rnd *rand.Rand, timed bool, maxTick int, conc bool) auScen {
 	return sc
 }
 
+// auExpiryScen: real-time scenarios shaped towards non-monotonic expiry on one host.  A token that
+// lives long (60 s default, or 3 s) is cached first for scope {a}; then a token that lives 1-2 s is
+// cached for a disjoint scope {b}; later - after the second token's expiry, while the first is still
+// good - a call requires {b} again (and one requires {a}).  Whatever is between is random.
+func auExpiryScen(rnd *rand.Rand, maxTick int) auScen {
+	sc := auScen{Cfg: map[string]string{}, Timed: true, Src: "rand-expiry"}
+	for _, h := range auHosts {
+		sc.Cfg[h] = auKinds[rnd.Intn(5)]
+	}
+	h := auHosts[rnd.Intn(len(auHosts))]
+	sc.Cfg[h] = []string{"none", "basic", "refresh", "both"}[rnd.Intn(4)]
+	p := rnd.Perm(len(auRS))
+	a, b := []string{auRS[p[0]]}, []string{auRS[p[1]]}
+	grants := func(life int) []auTokAns {
+		var out []auTokAns
+		for i := 0; i < 5; i++ {
+			out = append(out, auTokAns{Kind: "grant", Life: life, Var: rnd.Intn(1000), NewRT: rnd.Intn(6) == 0})
+		}
+		return out
+	}
+	call := func(req []string, life int, firstOK bool) auCall {
+		c := auCall{H: h, Req: req, Want: []string{}, Form: rnd.Intn(5), Body: []string{"none", "none", "plain", "getbody"}[rnd.Intn(4)]}
+		chal := auRegAns{Status: 401, Offers: []auOffer{{Scheme: "bearer", Realm: auRealms[rnd.Intn(len(auRealms))], Scope: append([]string{}, req...)}}}
+		if firstOK {
+			c.Reg = []auRegAns{{Status: 200}, {Status: 200}}
+		} else {
+			c.Reg = []auRegAns{chal, {Status: 200}}
+		}
+		c.Tok = grants(life)
+		return c
+	}
+	long, short := 0, 2+2*rnd.Intn(2) // ticks: 60 s default | 1 s or 2 s
+	t1 := rnd.Intn(2)
+	t2 := t1 + short + rnd.Intn(3) // at or past the short token's expiry
+	if rnd.Intn(3) == 0 {          // the first token lives 3 s: still good (more than 1 s left) up to tick 3
+		long, short = 6, 2
+		t2 = t1 + 2 + rnd.Intn(2-t1+1)
+		if t2 > 3 {
+			t2 = 3
+		}
+	}
+	sc.Steps = append(sc.Steps, auStep{At: 0, Calls: []auCall{call(a, long, false)}})
+	sc.Steps = append(sc.Steps, auStep{At: t1, Calls: []auCall{call(b, short, false)}})
+	if rnd.Intn(3) == 0 && t2-t1 >= 2 { // in between, while the short token must still be reused (only when it has > 1 s left)
+		sc.Steps = append(sc.Steps, auStep{At: t1 + rnd.Intn(2), Calls: []auCall{call(b, short, rnd.Intn(2) == 0)}})
+	}
+	sc.Steps = append(sc.Steps, auStep{At: t2, Calls: []auCall{call(b, 2*rnd.Intn(3), rnd.Intn(3) != 0)}})
+	if t2 < maxTick && rnd.Intn(2) == 0 {
+		sc.Steps = append(sc.Steps, auStep{At: t2 + rnd.Intn(2), Calls: []auCall{call(a, 0, true)}})
+	}
+	return sc
+}
+
 // ---------------------------------------------------------------- TLC walks -> scenarios
 
 type auWalkOp struct {
@@ -465,12 +518,16 @@ type auWalkOp struct {
 }
 
 type auWalk struct {
-	Cfg map[string]string `json:"cfg"`
-	Ops []auWalkOp        `json:"ops"`
+	Mode string            `json:"mode"`
+	Cfg  map[string]string `json:"cfg"`
+	Ops  []auWalkOp        `json:"ops"`
 }
 
 func auFromWalk(w auWalk, rnd *rand.Rand) auScen {
 	sc := auScen{Cfg: w.Cfg, Src: "tlc"}
+	if w.Mode == "shaped" {
+		sc.Src = "tlc-expiry"
+	}
 	for _, o := range w.Ops {
 		switch o.Op {
 		case "call":
@@ -1034,7 +1091,12 @@ func authCmd(args []string) error {
 		}
 		for i := 0; i < *n+*nt; i++ {
 			rnd := rand.New(rand.NewSource(*seed*7919 + int64(i)*104729 + 17))
-			s := auRandScen(rnd, i >= *n, *maxTick, true)
+			var s auScen
+			if i >= *n && (i-*n)%2 == 1 {
+				s = auExpiryScen(rnd, *maxTick)
+			} else {
+				s = auRandScen(rnd, i >= *n, *maxTick, true)
+			}
 			auConcretise(&s, rnd)
 			scens = append(scens, s)
 		}
